@@ -7,6 +7,7 @@ import Driver.Color
 import Driver.IOMap
 import Driver.Topo
 import Driver.Hist
+import Driver.Fmm
 
 open Driver
 
@@ -20,6 +21,7 @@ def step (line : String) : String :=
   | "hist" :: _ => Driver.Hist.handle toks
   | "solve" :: _ | "splitby" :: _ => Driver.Solve.handle toks
   | "alg" :: _ => Driver.Alg.handle toks
+  | "fmmpmap" :: _ | "fmmsmap" :: _ | "fmmtidx" :: _ | "fmmmv" :: _ => Driver.Fmm.handle toks
   | _ => "err bad-op"
 
 partial def loop (h : IO.FS.Stream) (out : IO.FS.Stream) : IO Unit := do
